@@ -179,6 +179,8 @@ func vSerialClass(dec string) string {
 		return "1byte"
 	case n.BitLen() <= 64:
 		return "upto64bit"
+	case n.BitLen() > 160:
+		return "above160bit"
 	default:
 		return "above64bit"
 	}
@@ -359,9 +361,19 @@ func vC17Serials(r *vs.Rand) *big.Int {
 		big.NewInt(0), big.NewInt(1), big.NewInt(127), big.NewInt(128), big.NewInt(255), big.NewInt(256), big.NewInt(65535), big.NewInt(65536),
 		new(big.Int).Exp(two, big.NewInt(63), nil), new(big.Int).Exp(two, big.NewInt(64), nil),
 		new(big.Int).Add(new(big.Int).Exp(two, big.NewInt(64), nil), big.NewInt(1)), new(big.Int).Exp(two, big.NewInt(159), nil),
+		// longer than 20 octets; several share their 20 most significant octets
+		new(big.Int).Exp(two, big.NewInt(160), nil), new(big.Int).Add(new(big.Int).Exp(two, big.NewInt(160), nil), big.NewInt(1)),
+		new(big.Int).Add(new(big.Int).Exp(two, big.NewInt(160), nil), big.NewInt(256)), new(big.Int).Exp(two, big.NewInt(200), nil),
 	}
-	if r.Chance(1, 8) {
+	switch {
+	case r.Chance(1, 8):
 		return new(big.Int).SetBytes(r.Bytes(20))
+	case r.Chance(1, 10):
+		// 21..24 octets behind one fixed 20-octet head
+		b := bytes.Repeat([]byte{0xA5}, 20)
+		return new(big.Int).SetBytes(append(b, r.Bytes(1+r.Intn(4))...))
+	case r.Chance(1, 16):
+		return new(big.Int).SetBytes(r.Bytes(32))
 	}
 	return fixed[r.Intn(len(fixed))]
 }
@@ -450,10 +462,10 @@ func vRunC17History(h *vHist, steps int, allowZero bool) {
 
 func TestVerif_C17(t *testing.T) {
 	res := vs.NewResult("C17", "exploration",
-		"create/revoke histories by 3 owners with serials {0,1,127,128,255,256,65535,65536,2^63,2^64,2^64+1,2^159, random 160-bit} (big-endian encodings prefix one another), duplicates, foreign CNs, foreign and forged signers; after every tx an append-only model is compared with keeper lookups for every (owner,serial) ever named and with the real gRPC querier for every filter shape (none/owner/owner+serial x state) x page sizes {0,1,2,3} x {key,offset} pagination followed to the end. distinct = (message kind, result, registry size, right signer)")
+		"create/revoke histories by 3 owners with serials {0,1,127,128,255,256,65535,65536,2^63,2^64,2^64+1,2^159, random 160-bit, 2^160,2^160+1,2^160+256,2^200, 21..24 octets behind one common 20-octet head, random 256-bit} (big-endian encodings prefix one another), duplicates, foreign CNs, foreign and forged signers; after every tx an append-only model is compared with keeper lookups for every (owner,serial) ever named and with the real gRPC querier for every filter shape (none/owner/owner+serial x state) x page sizes {0,1,2,3} x {key,offset} pagination followed to the end. distinct = (message kind, result, registry size, right signer)")
 	res.Assume("chain driven at the ABCI boundary; the querier is called in-process with the deliver-state context (no gRPC transport)")
 	for _, f := range []string{"created", "revoked", "duplicate_create_rejected", "foreign_create_rejected", "double_revoke_rejected", "revoke_unknown_rejected", "foreign_revoke_rejected", "listings",
-		"created_serial_class:zero", "created_serial_class:1byte", "created_serial_class:upto64bit", "created_serial_class:above64bit"} {
+		"created_serial_class:zero", "created_serial_class:1byte", "created_serial_class:upto64bit", "created_serial_class:above64bit", "created_serial_class:above160bit"} {
 		res.Floor(f, 1)
 	}
 	defer func() {
